@@ -73,60 +73,112 @@ func foldScenario(name string) string {
 // non-empty interface type can hold none of the values a stream delivers; the
 // only acceptable outcomes are an error, or success that leaves a usable target.
 func unfoldScenario(name string) string {
-	var target any
-	var use func() string
-	var evs []model.Ev
-	str := model.Ev{K: model.KStr, S: []byte("hello")}
-	obj := []model.Ev{{K: model.KObjStart, L: 1}, {K: model.KKey, S: []byte("s")}, str, {K: model.KObjEnd}}
-	switch name {
-	case "stringer_field":
-		t := &scStr{}
-		target, evs = t, obj
-		use = func() string { return fmt.Sprint(t.S) }
-	case "error_slice":
-		t := &[]error{}
-		target, evs = t, []model.Ev{{K: model.KArrStart, L: 1}, str, {K: model.KArrEnd}}
-		use = func() string { return fmt.Sprint(*t) }
-	case "error_map":
-		t := &map[string]error{}
-		target, evs = t, obj
-		use = func() string { return fmt.Sprint(*t) }
-	case "stringer_top":
-		t := new(scStringer)
-		target, evs = t, []model.Ev{str}
-		use = func() string { return fmt.Sprint(*t) }
-	default:
-		return "harness: unknown scenario " + name
-	}
-	var u *gotype.Unfolder
-	o := guard(func() error {
-		var err error
-		u, err = gotype.NewUnfolder(target)
-		return err
-	})
-	if o.Panicked() {
-		return fmt.Sprintf("NewUnfolder(%T) panics: %v", target, o.Panic)
-	}
-	if o.Err != nil {
-		return "" // refused
-	}
-	o = guard(func() error { _, err := model.Apply(evs, structform.Visitor(u)); return err })
-	if o.Panicked() {
-		return fmt.Sprintf("unfolding %v into %T panics: %v", truncEvs(evs), target, o.Panic)
-	}
-	if o.Err != nil {
+	if name == "refused_then_related" {
+		// A is refused (chan member); B refers to A: SetTarget(&B) on the same
+		// unfolder and a document for it must end in an error (or a usable
+		// target), not in a crash
+		var first, second, third error
+		o := guard(func() error {
+			u, err := gotype.NewUnfolder(nil)
+			if err != nil {
+				return err
+			}
+			first = u.SetTarget(&scA{})
+			b := &scB{}
+			second = u.SetTarget(b)
+			if second == nil {
+				_, third = model.Apply([]model.Ev{{K: model.KObjStart, L: 1}, {K: model.KKey, S: []byte("a")}, {K: model.KObjStart, L: 1}, {K: model.KKey, S: []byte("b")}, {K: model.KNil}, {K: model.KObjEnd}, {K: model.KObjEnd}}, structform.Visitor(u))
+			}
+			return nil
+		})
+		if o.Panicked() {
+			return fmt.Sprintf("one unfolder: SetTarget(&A{}) = %v (A has a chan member), SetTarget(&B{}) = %v (B holds *A), then unfolding {\"a\":{\"b\":null}} panics: %v\n%s", first, second, o.Panic, o.Stack)
+		}
+		if o.Err != nil {
+			return "NewUnfolder fails: " + o.Err.Error()
+		}
+		if first == nil {
+			return "SetTarget accepts a struct with a chan member"
+		}
+		_ = third
 		return ""
 	}
-	// success: the target must be usable Go data
-	o = guard(func() error { _ = use(); return nil })
-	if o.Panicked() {
-		return fmt.Sprintf("unfolding %v into %T (a non-empty interface type) reports success but leaves a corrupted target: using it panics: %v", truncEvs(evs), target, o.Panic)
+	str := model.Ev{K: model.KStr, S: []byte("hello")}
+	values := [][]model.Ev{
+		{str}, {{K: model.KStrRef, S: []byte("ref")}}, {{K: model.KInt, I: 7}}, {{K: model.KBool, B: true}}, {{K: model.KF64, F: 0x3ff8000000000000}}, {{K: model.KNil}},
+		{{K: model.KObjStart, L: 1}, {K: model.KKey, S: []byte("x")}, {K: model.KInt, I: 1}, {K: model.KObjEnd}},
+		{{K: model.KArrStart, L: -1}, str, {K: model.KArrEnd}},
 	}
-	v := reflect.ValueOf(target).Elem()
-	return fmt.Sprintf("unfolding %v into %T reports success although no delivered value can implement the interface (target now %v)", truncEvs(evs), target, v.Type())
+	inObj := func(v []model.Ev) []model.Ev {
+		out := []model.Ev{{K: model.KObjStart, L: 1}, {K: model.KKey, S: []byte("s")}}
+		return append(append(out, v...), model.Ev{K: model.KObjEnd})
+	}
+	inArr := func(v []model.Ev) []model.Ev {
+		return append(append([]model.Ev{{K: model.KArrStart, L: 1}}, v...), model.Ev{K: model.KArrEnd})
+	}
+	for _, val := range values {
+		var target any
+		var use func() string
+		var evs []model.Ev
+		switch name {
+		case "stringer_field":
+			t := &scStr{}
+			target, evs = t, inObj(val)
+			use = func() string { return fmt.Sprint(t.S) }
+		case "error_slice":
+			t := &[]error{}
+			target, evs = t, inArr(val)
+			use = func() string { return fmt.Sprint(*t) }
+		case "error_map":
+			t := &map[string]error{}
+			target, evs = t, inObj(val)
+			use = func() string { return fmt.Sprint(*t) }
+		case "stringer_top":
+			t := new(scStringer)
+			target, evs = t, val
+			use = func() string { return fmt.Sprint(*t) }
+		case "stringer_nested":
+			t := &struct{ A []map[string]scStringer }{}
+			target = t
+			evs = []model.Ev{{K: model.KObjStart, L: 1}, {K: model.KKey, S: []byte("a")}}
+			evs = append(append(evs, inArr(inObj(val))...), model.Ev{K: model.KObjEnd})
+			use = func() string { return fmt.Sprint(t.A) }
+		default:
+			return "harness: unknown scenario " + name
+		}
+		var u *gotype.Unfolder
+		o := guard(func() error {
+			var err error
+			u, err = gotype.NewUnfolder(target)
+			return err
+		})
+		if o.Panicked() {
+			return fmt.Sprintf("NewUnfolder(%T) panics: %v", target, o.Panic)
+		}
+		if o.Err != nil {
+			continue // refused
+		}
+		o = guard(func() error { _, err := model.Apply(evs, structform.Visitor(u)); return err })
+		if o.Panicked() {
+			return fmt.Sprintf("unfolding %v into %T panics: %v", truncEvs(evs), target, o.Panic)
+		}
+		if o.Err != nil {
+			continue
+		}
+		// success: the target must be usable Go data; only null can be held by
+		// an interface none of the delivered values implements
+		o = guard(func() error { _ = use(); return nil })
+		if o.Panicked() {
+			return fmt.Sprintf("unfolding %v into %T (a non-empty interface type) reports success but leaves a corrupted target: using it panics: %v", truncEvs(evs), target, o.Panic)
+		}
+		if val[0].K != model.KNil {
+			return fmt.Sprintf("unfolding %v into %T reports success although no delivered value can implement the interface (target type %v)", truncEvs(evs), target, reflect.TypeOf(target).Elem())
+		}
+	}
+	return ""
 }
 
 var foldScenarios = []string{"bad_option", "refused_then_related"}
-var unfoldScenarios = []string{"stringer_field", "error_slice", "error_map", "stringer_top"}
+var unfoldScenarios = []string{"stringer_field", "error_slice", "error_map", "stringer_top", "stringer_nested", "refused_then_related"}
 
 var _ = gomodel.Pool
